@@ -78,10 +78,10 @@ def _pipeline_info(pipe, data, context, former_data=None):
 
         final_hat = False
         if pipe.remainder == "passthrough":
-            done = [set(d["inputs"]) for d in info]
-            merged = done[0]
-            for d in done[1:]:
-                merged.union(d)
+            keys = list(data)
+            merged = set()
+            for _, _, vs in pipe.transformers:
+                merged.update(keys[v] if isinstance(v, int) else v for v in vs)
             new_data = OrderedDict([(k, v) for k, v in data.items() if k not in merged])
 
             info = _pipeline_info(
